@@ -229,3 +229,56 @@ def swaps_pinned_reading(spec, nranks, depth, radix, latency):
     coordinates, higher list index first."""
     return sum(site_cost(s, radix, latency, 'nonempty', 'stored', True)
                for s in merge_sites(spec, nranks, depth))
+
+
+# ---------------------------------------------------------------------------
+# loop nests with two or more ranks around the intersection
+
+def nest_shapes(d, k):
+    """Every loop nest of d enclosing ranks that reaches the intersection k
+    times, up to an order-preserving renaming of each rank's coordinates.
+
+    A shape is the tuple of the k coordinate prefixes (one coordinate per
+    enclosing rank) in visiting order: strictly increasing lexicographically
+    (a loop visits coordinates in ascending order, an inner loop restarts
+    whenever an outer coordinate changes).  Points are only ever compared for
+    equality and order, rank by rank, so coordinates 0..k-1 per rank renamed to
+    dense ranks give one representative of every distinguishable nest."""
+    import itertools
+    allp = list(itertools.product(range(k), repeat=d))
+    seen, out = set(), []
+    for combo in itertools.combinations(allp, k):        # ascending by construction
+        cols = []
+        for lvl in range(d):
+            vals = sorted({p[lvl] for p in combo})
+            cols.append({v: i for i, v in enumerate(vals)})
+        canon = tuple(tuple(cols[lvl][p[lvl]] for lvl in range(d)) for p in combo)
+        if canon not in seen:
+            seen.add(canon)
+            out.append(canon)
+    return out
+
+
+def nest_batches(prefixes, g):
+    """Fiber indices per addTraces call when the traces are handed over every
+    time one of the first g enclosing coordinates changes (g = 0: one shot,
+    g = number of enclosing ranks: fiber by fiber)."""
+    out = [[0]]
+    for n in range(1, len(prefixes)):
+        if prefixes[n][:g] != prefixes[n - 1][:g]:
+            out.append([])
+        out[-1].append(n)
+    return out
+
+
+def pinned_batched_walk(prefixes, As, Bs, batches, skip_ahead):
+    """pinned_oneshot_walk applied batch by batch (a model that raised stays
+    raised)."""
+    n = 0
+    for b in batches:
+        p0, p1 = oracle_points([prefixes[i] for i in b], [As[i] for i in b], [Bs[i] for i in b])
+        r = pinned_oneshot_walk(p0, p1, skip_ahead)
+        if r == "AssertionError":
+            return r
+        n += r
+    return n
